@@ -70,6 +70,73 @@ def refusal_scenario(args):
             pass
 
 
+def release_unexpected_scenario(slow):
+    """The local user releases (Sta7); the scripted peer answers the A-RELEASE-RQ with a second A-ASSOCIATE-AC - an
+    unexpected PDU: AA-8, A-ABORT sent, Sta13, A-P-ABORT indication to the releasing thread.  The provider still has to
+    close the transport and return to Sta1; a slow EVT_FSM_TRANSITION observer keeps it in Sta13 a little longer."""
+    import socket
+
+    from harness.props import c08
+    from pynetdicom import AE, evt
+    from pynetdicom.sop_class import Verification
+
+    e2e.quiet()
+    B = c08._bytes()
+    errors, trans = [], []
+    old_hook = threading.excepthook
+    threading.excepthook = lambda a: errors.append((type(a.thread).__name__, a.exc_type.__name__ + ": " + str(a.exc_value)))
+    lst = socket.socket()
+    lst.bind(("127.0.0.1", 0))
+    lst.listen(1)
+    peer = {"eof": False}
+
+    def serve():
+        c, _ = lst.accept()
+        c.settimeout(6.0)
+        try:
+            c.recv(65536)          # A-ASSOCIATE-RQ
+            c.sendall(B["ac"])
+            c.recv(65536)          # A-RELEASE-RQ
+            c.sendall(B["ac"])     # not what Sta7 expects
+            while True:
+                d = c.recv(65536)  # the A-ABORT, then the close
+                if not d:
+                    peer["eof"] = True
+                    break
+        except OSError:
+            pass
+        finally:
+            c.close()
+
+    th = threading.Thread(target=serve, daemon=True)
+    th.start()
+
+    def on_fsm(event):
+        trans.append((event.current_state, event.fsm_event, event.action, event.next_state))
+        if slow and event.next_state == "Sta13":
+            time.sleep(0.4)
+
+    try:
+        ae = AE()
+        ae.add_requested_context(Verification)
+        ae.acse_timeout = ae.dimse_timeout = ae.network_timeout = 3.0 * e2e.load_factor()
+        a = ae.associate("127.0.0.1", lst.getsockname()[1], evt_handlers=[(evt.EVT_FSM_TRANSITION, on_fsm)])
+        if not a.is_established:
+            return {"harness_error": "association with the scripted peer not established"}
+        a.release()
+        t0 = time.monotonic()
+        while a.dul.is_alive() and time.monotonic() - t0 < 3.0:
+            time.sleep(0.01)
+        th.join(3.0)
+        sock = getattr(a.dul.socket, "socket", None)
+        closed = sock is None or sock.fileno() == -1
+        return {"slow": slow, "errors": errors, "trans": trans, "dul_alive": a.dul.is_alive(), "socket_closed": closed,
+                "peer_saw_close": peer["eof"], "aborted": a.is_aborted}
+    finally:
+        threading.excepthook = old_hook
+        lst.close()
+
+
 def run(ctx, reps):
     import multiprocessing as mp
 
@@ -94,9 +161,33 @@ def run(ctx, reps):
             ctx.fail("e2e-refusal:request-after-refusal", f"request primitives issued after the refusal ({r['kind']}) and never handled: {r['leftovers']}", case)
         if r["established"]:
             ctx.fail("e2e-refusal:established", f"the refused association ({r['kind']}) was established", case)
+    pool = mp.get_context("fork").Pool(processes=2, maxtasksperchild=1, initializer=e2e.no_join_at_exit)
+    try:
+        rel = pool.map(release_unexpected_scenario, [True, False] * reps)
+    finally:
+        pool.terminate()
+        pool.join()
+    for r in rel:
+        case = ["e2e-release-unexpected", r.get("slow")]
+        ctx.case(case, nontrivial=True, kind=f"e2e-release-unexpected:{'slow' if r.get('slow') else 'fast'}-observer")
+        if "harness_error" in r:
+            ctx.diff(case, r, "n/a", "scenario harness failed")
+            continue
+        last = r["trans"][-1][3] if r["trans"] else None
+        if r["errors"]:
+            ctx.fail("e2e-release-unexpected:thread-died", f"release answered by an unexpected PDU: {r['errors'][0]}", case)
+        if last != "Sta1" or not r["socket_closed"] or not r["peer_saw_close"]:
+            ctx.fail("e2e-release-unexpected:not-idle",
+                     f"release answered by an unexpected PDU: the provider's transitions end in {last}, socket closed={r['socket_closed']}, "
+                     f"peer saw the connection close={r['peer_saw_close']} (transitions {r['trans'][-4:]})", case)
 
 
 def replay(ctx, case):
+    if case[0] == "e2e-release-unexpected":
+        r = release_unexpected_scenario(bool(case[1]))
+        print(r)
+        last = r["trans"][-1][3] if r.get("trans") else None
+        return 1 if r.get("errors") or last != "Sta1" or not r.get("socket_closed") or not r.get("peer_saw_close") else 0
     r = refusal_scenario((case[1], case[2]))
     print(r)
     bad = r["errors"] or r["leftovers"] or r["established"] or (r["trans"] and r["trans"][-1][3] != "Sta1")
